@@ -23,6 +23,7 @@ Cmds(k) == <<
   [name |-> "GetSystemGUID", netfn |-> 6, num |-> 55, group |-> <<>>, reqT |-> NoT, rspN |-> "GetSystemGUIDRsp"],
   [name |-> "GetChannelAuthenticationCapabilities", netfn |-> 6, num |-> 56, group |-> <<>>, reqT |-> GetChannelAuthenticationCapabilitiesReq, rspN |-> "GetChannelAuthenticationCapabilitiesRsp"],
   [name |-> "SetSessionPrivilegeLevel", netfn |-> 6, num |-> 59, group |-> <<>>, reqT |-> SetSessionPrivilegeLevelReq, rspN |-> "SetSessionPrivilegeLevelRsp"],
+  [name |-> "GetSessionInfo", netfn |-> 6, num |-> 61, group |-> <<>>, reqT |-> NoT, rspN |-> "GetSessionInfoRsp18"],
   [name |-> "CloseSession", netfn |-> 6, num |-> 60, group |-> <<>>, reqT |-> CloseSessionReq, rspN |-> ""],
   [name |-> "GetSDRRepositoryInfo", netfn |-> 10, num |-> 32, group |-> <<>>, reqT |-> NoT, rspN |-> "GetSDRRepositoryInfoRsp"],
   [name |-> "ReserveSDRRepository", netfn |-> 10, num |-> 34, group |-> <<>>, reqT |-> NoT, rspN |-> "ReserveSDRRepositoryRsp"],
@@ -43,7 +44,7 @@ ReqOk(c, r) == /\ (c.name = "SetSessionPrivilegeLevel" => r["PrivilegeLevel"] # 
                /\ (c.name = "CloseSession" => r["ID"] # <<0, 0, 0, 0>>)
 ReqRecs(c, k) == IF c.reqT = NoT THEN {<<>>} ELSE {r \in {Base(c.reqT, k), Base(c.reqT, k + 1), Base(c.reqT, k + 2)} : ReqOk(c, r)}
 \* DCMI 6.5.2: the instance start offset only applies to "all instances"; with a specific instance it is sent as 0
-ReqBytes(c, r) == IF c.name = "GetPowerReading" THEN <<1, 0, 0>> ELSE IF CapsParam(c.name) > 0 THEN <<CapsParam(c.name)>> ELSE IF c.reqT = NoT THEN <<>>
+ReqBytes(c, r) == IF c.name = "GetPowerReading" THEN <<1, 0, 0>> ELSE IF c.name = "GetSessionInfo" THEN <<0>> ELSE IF CapsParam(c.name) > 0 THEN <<CapsParam(c.name)>> ELSE IF c.reqT = NoT THEN <<>>
                   ELSE IF c.name = "GetDCMISensorInfo" /\ r["Instance"] # 0 THEN Encode(c.reqT, [r EXCEPT !["InstanceStart"] = 0]) ELSE Encode(c.reqT, r)
 \* responses without a fixed table: [bytes, value]
 CapsName(c, k) == IF c.name = "DCMICapsMandatoryPlatformAttrs" THEN (IF k % 2 = 0 THEN "DCMICapsMandatoryPlatformAttrsRsp4" ELSE "DCMICapsMandatoryPlatformAttrsRsp5")
@@ -80,6 +81,66 @@ MsgBytes(c, k) == MsgRspBytes(129, c.netfn + 1, 0, 1, Lun(c, k), c.num, 0, c.gro
 ReactIn(c, k, j) == [React0 EXCEPT !.datagrams = << Dg(SessPacket(S, LE32s(j), B(MsgBytes(c, k)), [i \in 1..16 |-> (i + j) % 256]), [kind |-> "rsp", valid |-> TRUE, code |-> 0]) >>]
 ReactOut(c, k) == [React0 EXCEPT !.datagrams = << Dg(NullWrapper(0, B(MsgBytes(c, k))), [kind |-> "rsp", valid |-> TRUE, code |-> 0]) >>]
 
+Rev(q) == [i \in 1..Len(q) |-> q[Len(q) + 1 - i]]
+\* --- the convenience methods (bmc.SessionCommands / SessionlessCommands, pkg/dcmi commanders): same wire behaviour,
+\* the result handed back as a value
+DcmiMethod(n) == CASE n = "DCMICapsSupportedCapabilities" -> "GetDCMICapabilitiesInfoSupportedCapabilities"
+                   [] n = "DCMICapsMandatoryPlatformAttrs" -> "GetDCMICapabilitiesInfoMandatoryPlatformAttrs"
+                   [] n = "DCMICapsOptionalPlatformAttrs" -> "GetDCMICapabilitiesInfoOptionalPlatformAttrs"
+                   [] n = "DCMICapsManageabilityAccessAttrs" -> "GetDCMICapabilitiesInfoManageabilityAccessAttrs"
+                   [] n = "DCMICapsEnhancedSystemPowerStatisticsAttrs" -> "GetDCMICapabilitiesInfoEnhancedSystemPowerStatisticsAttrs"
+                   [] OTHER -> n
+\* [m (method name), on ("" or "dcmi"), margs, sess (needs a session)] or <<>> when there is no method for the command
+Meth(c, r) ==
+  CASE c.name \in {"GetDeviceID", "GetChassisStatus", "GetSDRRepositoryInfo", "ReserveSDRRepository"} -> [m |-> c.name, on |-> "", margs |-> <<>>, sess |-> TRUE]
+    [] c.name = "GetSystemGUID" -> [m |-> c.name, on |-> "", margs |-> <<>>, sess |-> FALSE]
+    [] c.name = "GetChannelAuthenticationCapabilities" -> [m |-> c.name, on |-> "", margs |-> <<r>>, sess |-> FALSE]
+    [] c.name = "GetSessionInfo" -> [m |-> c.name, on |-> "", margs |-> << [Index |-> 0] >>, sess |-> TRUE]
+    [] c.name = "ChassisControl" -> [m |-> c.name, on |-> "", margs |-> << r["ChassisControl"] >>, sess |-> TRUE]
+    [] c.name = "SetSessionPrivilegeLevel" -> [m |-> c.name, on |-> "", margs |-> << r["PrivilegeLevel"] >>, sess |-> TRUE]
+    [] c.name = "GetSensorReading" -> [m |-> c.name, on |-> "", margs |-> << r["Number"] >>, sess |-> TRUE]
+    [] c.name = "GetPowerReading" -> [m |-> c.name, on |-> "dcmi", margs |-> << [Mode |-> 1, Period |-> [s |-> 0, ns |-> 0]] >>, sess |-> TRUE]
+    [] c.name = "GetDCMISensorInfo" -> [m |-> c.name, on |-> "dcmi", margs |-> <<r>>, sess |-> TRUE]
+    [] CapsParam(c.name) > 0 -> [m |-> DcmiMethod(c.name), on |-> "dcmi", margs |-> <<>>, sess |-> FALSE]
+    [] OTHER -> <<>>
+\* what the method hands back: the response record, or for three of them a plain value
+MethValue(c, k) ==
+  IF c.name = "GetSystemGUID" THEN [outcome |-> "equals", value |-> RspRec(c, k)["GUID"]]
+  ELSE IF c.name = "SetSessionPrivilegeLevel" THEN [outcome |-> "equals", value |-> RspRec(c, k)["PrivilegeLevel"]]
+  ELSE IF HasVarRsp(c) THEN [outcome |-> "agrees", value |-> VarRsp(c, k).value]
+  ELSE IF c.rspN = "" THEN [outcome |-> "noerror"]
+  ELSE [outcome |-> "agrees", value |-> Expected(c.rspN, Tables[c.rspN], RspRec(c, k))]
+MethodV(c, r, k, tg, vprop) ==
+  LET mt == Meth(c, r)
+      lun == IF c.name = "GetSensorReading" THEN 0 ELSE Lun(c, k) IN
+  [k |-> "call", api |-> "Method", method |-> mt.m, on |-> mt.on, margs |-> mt.margs, label |-> mt.m, target |-> tg,
+   exp |-> [prop |-> "C06", vprop |-> vprop, rslun |-> lun,
+            reqs |-> << [pt |-> 0, netfn |-> c.netfn, cmd |-> c.num, data |-> c.group \o ReqBytes(c, r)] >>] @@ MethValue(c, k)]
+MethMsgBytes(c, k) == MsgRspBytes(129, c.netfn + 1, 0, 1, IF c.name = "GetSensorReading" THEN 0 ELSE Lun(c, k), c.num, 0, c.group \o RspBytes(c, k))
+RECURSIVE MethodSteps(_, _, _, _, _)
+MethodSteps(cs, k, tg, j, vprop) ==
+  IF cs = <<>> THEN <<>> ELSE
+  LET c == Head(cs)
+      rs == ReqRecs(c, k + j)
+      r == CHOOSE x \in rs : TRUE
+      usable == rs # {} /\ Meth(c, r) # <<>> /\ (tg = "sess" \/ ~Meth(c, r).sess)
+  IN (IF ~usable THEN <<>> ELSE
+      << MethodV(c, r, k + j, tg, vprop),
+         IF tg = "sess" THEN [React0 EXCEPT !.datagrams = << Dg(SessPacket(S, LE32s(j), B(MethMsgBytes(c, k + j)), [i \in 1..16 |-> (i + j) % 256]), [kind |-> "rsp", valid |-> TRUE, code |-> 0]) >>]
+         ELSE [React0 EXCEPT !.datagrams = << Dg(NullWrapper(0, B(MethMsgBytes(c, k + j))), [kind |-> "rsp", valid |-> TRUE, code |-> 0]) >>] >>)
+     \o MethodSteps(Tail(cs), k, tg, IF usable THEN j + 1 ELSE j, vprop)
+\* the current privilege level is read with level 0 in the request (22.18)
+GetPriv(tg, j, lvl) ==
+  << [k |-> "call", api |-> "Method", method |-> "GetSessionPrivilegeLevel", on |-> "", margs |-> <<>>, label |-> "GetSessionPrivilegeLevel", target |-> tg,
+      exp |-> [prop |-> "C06", vprop |-> "C07", rslun |-> 0, outcome |-> "equals", value |-> lvl,
+               reqs |-> << [pt |-> 0, netfn |-> 6, cmd |-> 59, data |-> <<0>>] >>]],
+     [React0 EXCEPT !.datagrams = << Dg(SessPacket(S, LE32s(j), B(MsgRspBytes(129, 7, 0, 1, 0, 59, 0, <<lvl>>)), [i \in 1..16 |-> (i + j) % 256]), [kind |-> "rsp", valid |-> TRUE, code |-> 0]) >>] >>
+Methods(id, k, tg, rev) ==
+  LET cs == IF rev THEN Rev(Cmds(k)) ELSE Cmds(k)
+      main == MethodSteps(cs, k, tg, 1, IF rev THEN "C17" ELSE "C07") IN
+  [id |-> id, prefix |-> IF tg = "sess" THEN "hs" ELSE "",
+   info |-> [family |-> "api-methods", insess |-> tg = "sess", integLen |-> S.integLen, bmcSid |-> S.bmcSid],
+   steps |-> main \o (IF tg = "sess" THEN GetPriv(tg, (Len(main) \div 2) + 1, 2 + (k % 3)) ELSE <<>>)]
 RECURSIVE StepsFor(_, _, _, _, _, _)
 StepsFor(cs, k, tg, j, vprop, keep) ==
   IF cs = <<>> THEN <<>> ELSE
@@ -89,7 +150,6 @@ StepsFor(cs, k, tg, j, vprop, keep) ==
   IN (IF rs = {} THEN <<>> ELSE << CallV(c, r, k + j, tg, vprop, keep), IF tg = "sess" THEN ReactIn(c, k + j, j) ELSE ReactOut(c, k + j) >>)
      \o StepsFor(Tail(cs), k, tg, j + 1, vprop, keep)
 \* one script per (seed offset, target): every command once, in table order and in reverse (results must not depend on what preceded)
-Rev(q) == [i \in 1..Len(q) |-> q[Len(q) + 1 - i]]
 \* every command twice in a row through one command value the caller keeps, with different response contents
 Dup(q) == [i \in 1..(2 * Len(q)) |-> q[(i + 1) \div 2]]
 Script(id, k, tg, rev) ==
@@ -105,6 +165,8 @@ Scripts == { Script("api-" \o tg \o "-" \o ToString(k) \o (IF rv THEN "r" ELSE "
              : k \in 1..(IF Tier = "thorough" THEN 40 ELSE 8), tg \in {"conn", "sess"}, rv \in BOOLEAN }
            \cup { Twice("api2-" \o tg \o "-" \o ToString(k) \o "-" \o vp, Seed * 100 + k, tg, vp)
                   : k \in 1..(IF Tier = "thorough" THEN 24 ELSE 6), tg \in {"conn", "sess"}, vp \in {"C07", "C17"} }
+           \cup { Methods("apim-" \o tg \o "-" \o ToString(k) \o (IF rv THEN "r" ELSE "f"), Seed * 100 + k, tg, rv)
+                  : k \in 1..(IF Tier = "thorough" THEN 24 ELSE 6), tg \in {"conn", "sess"}, rv \in BOOLEAN }
 Header == [header |-> TRUE, family |-> "api", defs |-> SessionDefs(S), stable |-> <<"SIK", "K1", "K2">>,
            session |-> SessionRecipes(S), prefixes |-> [hs |-> HandshakeSteps(S)]]
 ASSUME PrintT(<<"HEADER", ToJson(Header)>>)
